@@ -34,6 +34,11 @@ def run_item(args):
         item.symbolic(vc)
     except api.Unsupported as e:
         vc.undecided.append(api.Undecided(item.name, 'UNSUPPORTED (contract level): %s' % e))
+    except (KeyError, AttributeError, IndexError) as e:
+        # harness set-up code that names a module attribute / local / method the current source no longer has
+        tb = traceback.extract_tb(e.__traceback__)[-1]
+        vc.undecided.append(api.Undecided(item.name, 'UNSUPPORTED (contract level): CONTRACT-MAPPING %s: %s at %s:%d' % (
+            type(e).__name__, e, os.path.basename(tb.filename), tb.lineno)))
     except Exception as e:
         crashed = traceback.format_exc()
     obls = []
@@ -108,6 +113,8 @@ def main():
     ap.add_argument('--replay')
     ap.add_argument('--jobs', type=int, default=min(16, os.cpu_count() or 4))
     ap.add_argument('--only')
+    ap.add_argument('--no-native', action='store_true', help='diagnostic runs (mutation analysis): skip the bounded harness; '
+                    'the evidence of such a run is marked level=other')
     a = ap.parse_args()
     prop = a.prop
     tier = a.tier if a.tier in ('quick', 'thorough') else 'quick'
@@ -131,7 +138,10 @@ def main():
     except Exception:
         traceback.print_exc()
         return 3
-    native = run_native(prop, tier, seed, only=a.only)
+    if a.no_native:
+        native = dict(cases=0, failures=[], tests=[], crashed=None, skipped=True)
+    else:
+        native = run_native(prop, tier, seed, only=a.only)
     return report(prop, tier, seed, mod, results, native, time.time() - t0)
 
 
@@ -235,6 +245,8 @@ def report(prop, tier, seed, mod, results, native, wall):
     kf_refuted = [o for o in failed_proof if o.get('known_finding')]
     proof_counted = [o for o in proof if not o.get('known_finding')]
     level = 'proof' if (all_proved and not crashed and len(discharged) == len(proof_counted)) else 'other'
+    if native.get('skipped'):
+        level = 'other'       # diagnostic run without the bounded harness
     samples = [dict(name=o['name'], verdict=o['status'], backend=o['backend'], ms=o['ms']) for o in proof[:6]]
     solver_ms = sum(o['ms'] for o in obls)
     cov = dict(
